@@ -120,16 +120,32 @@ var cfgs = []cfg{
 
 var fillerSalt int
 
-// fillers validates n distinct filler types (rules at every field index) to flush / populate the cache.
-func fillers(n int) {
+var fillerPool []reflect.Type // reused across sequences when the cache is fresh per sequence
+
+func fillerType() reflect.Type {
+	fillerSalt++
+	return reflect.StructOf([]reflect.StructField{
+		{Name: "A", Type: reflect.TypeOf(""), Tag: reflect.StructTag(fmt.Sprintf(`a:"required" b:"required" valid:"required" salt:"%d"`, fillerSalt))},
+		{Name: "B", Type: reflect.TypeOf(""), Tag: `a:"required" b:"required" valid:"required"`},
+		{Name: "C", Type: reflect.TypeOf(0), Tag: `a:"required" b:"required" valid:"required"`},
+		{Name: "D", Type: reflect.TypeOf(""), Tag: `a:"required" b:"required" valid:"required"`},
+	})
+}
+
+// fillers validates n distinct filler types (rules at every field index) to flush / populate the cache; every one
+// that does not fit evicts an entry, so n - capacity evictions advance the LRU's hidden removal counter.
+// fresh=false reuses a per-process pool of types (valid only when the cache instance is fresh per sequence).
+func fillers(n int, fresh bool) {
 	for i := 0; i < n; i++ {
-		fillerSalt++
-		st := reflect.StructOf([]reflect.StructField{
-			{Name: "A", Type: reflect.TypeOf(""), Tag: reflect.StructTag(fmt.Sprintf(`a:"required" b:"required" valid:"required" salt:"%d"`, fillerSalt))},
-			{Name: "B", Type: reflect.TypeOf(""), Tag: `a:"required" b:"required" valid:"required"`},
-			{Name: "C", Type: reflect.TypeOf(0), Tag: `a:"required" b:"required" valid:"required"`},
-			{Name: "D", Type: reflect.TypeOf(""), Tag: `a:"required" b:"required" valid:"required"`},
-		})
+		var st reflect.Type
+		if fresh {
+			st = fillerType()
+		} else {
+			for len(fillerPool) <= i {
+				fillerPool = append(fillerPool, fillerType())
+			}
+			st = fillerPool[i]
+		}
 		p := reflect.New(st)
 		_ = valid.ValidateStruct(p.Interface(), []string{"a", "b", "valid"}[i%3])
 	}
@@ -177,8 +193,13 @@ func run(c *runner.Ctx) {
 			if n > 600 {
 				n = 600
 			}
-			fillers(n)
+			fillers(n, defaultMode)
 		}},
+	}
+	// churn-r: r evictions before the sequence starts, for every residue of the LRU's removal counter relative to its
+	// map-rebuild threshold (2*capacity+2) - so the rebuild falls on every position of the next d calls
+	churn := func(r int) start {
+		return start{fmt.Sprintf("churn-%d", r), func(cf cfg) { fillers(cf.cap+r, defaultMode) }}
 	}
 	runCfgs := cfgs
 	if defaultMode {
@@ -186,11 +207,20 @@ func run(c *runner.Ctx) {
 		depth = 3
 	}
 	for _, cf := range runCfgs {
-		for _, st := range starts {
+		sts := starts
+		if !defaultMode && strings.HasPrefix(cf.name, "LRU(") && cf.cap >= 1 && cf.cap <= 8 {
+			for r := 1; r <= 2*cf.cap+3; r++ {
+				sts = append(sts, churn(r))
+			}
+		}
+		for _, st := range sts {
 			c.Space(fmt.Sprintf("%s:%s/%s", c.Mode, cf.name, st.name))
 			d2 := depth
 			if defaultMode && st.name == "warm-then-flush" {
 				d2 = 2 // every sequence re-flushes 513 types
+			}
+			if strings.HasPrefix(st.name, "churn-") && cf.cap == 8 {
+				d2 = depth - 1
 			}
 			enum.Seqs(len(all), d2, func(seq []int) {
 				if !c.Take() {
@@ -266,7 +296,7 @@ func main() {
 		Property:  "C08",
 		Technique: "explicit enumeration of all call histories up to a depth x cache configurations x start states on the real code vs pure-function model (cross-configuration differential)",
 		Rule: "calls = 3 types (nested, time.Time fields) x tag names {a,b} (different rules per tag on the same fields; the value violates the a-rules on one field and the b-rules on another) x {tag rules, per-call override of the shared field}; " +
-			"all sequences of length d (3 quick, 4 thorough) from 3 start states (cold, warmed under the other tag / with overrides, warmed then flushed by capacity+1 filler types) on 8 cache configurations switched in-process " +
+			"all sequences of length d (3 quick, 4 thorough) from 3 start states (cold, warmed under the other tag / with overrides, warmed then flushed by capacity+1 filler types) on 8 cache configurations switched in-process, plus, for the bounded LRUs of capacity 1,2,3,8, the start states churn-r (r = 1..2*capacity+3 evictions before the sequence: every position of the LRU's internal map rebuild relative to the next d calls) " +
 			"and on the untouched package default (separate worker set); every call compared with walk(type, tag, override, value); states = (configuration, per-type last tag) ; non-trivial = a type re-validated under the other tag",
 		Assumptions: []string{"walk model internal/walk", "the global cache is replaced through the public SetStructTypeCache only"},
 		Run:         run,
